@@ -749,7 +749,23 @@ def pinned_descriptions():
               {"s": "to_code", "solver": "odeint", "method": "rosenbrock4", "device": "cpu"}]
     p2 = {"id": "pinned-noindex-0", "family": "pinned-noindex", "entry": "api", "name": "simproj", "files": {},
           "net": dict(MIXED, rate_modifier={"2": "2.5e-10 * zeta"}), "steps": steps}
-    return [p1, p2]
+    # a network observed too early: helium cooling is requested but helium arrives later.  The first
+    # rendering fails on the unchanged code (and leaves the network alone); whatever it does, the
+    # rendering after the helium reactions must equal the one of the script without the early attempt.
+    def line(i, R, P):
+        return ",".join([str(i)] + (R + [""] * 3)[:3] + (P + [""] * 5)[:5] + [repr(round((i + 1) * 1.7e-11, 13)), "-0.5", "0.0", "10.0", "41000.0", "100", "sim"])
+
+    hyd = [(["H", "e-"], ["H+", "e-", "e-"]), (["H+", "e-"], ["H"])]
+    hel = [(["He", "e-"], ["He+", "e-", "e-"]), (["He+", "e-"], ["He"])]
+    r3 = {"s": "render", "solver": "cvode", "method": "dense", "device": "cpu", "pattern": False}
+    p3 = {"id": "pinned-early-look-0", "family": "pinned-early-look", "entry": "api", "name": "simproj", "solo_only": True,
+          "expect_unusable": True,
+          "files": {"h.naunet": "\n".join(line(i, R, P) for i, (R, P) in enumerate(hyd)) + "\n",
+                    "he.naunet": "\n".join(line(i + 2, R, P) for i, (R, P) in enumerate(hel)) + "\n"},
+          "net": {"elements": ["e", "H", "D", "He"], "pseudo_elements": ["Photon"], "cooling": ["CIC_HI", "RC_HII", "CIC_HeI", "RC_HeI"]},
+          "steps": [{"s": "new"}, {"s": "add_file", "file": "h.naunet", "fmt": "naunet"}, dict(r3),
+                    {"s": "add_file", "file": "he.naunet", "fmt": "naunet"}, dict(r3), {"s": "to_code", "solver": "cvode", "method": "sparse", "device": "cpu"}]}
+    return [p1, p2, p3]
 
 
 def build_library(seed, tier):
